@@ -533,6 +533,7 @@ Section SsUdpFacts.
     assert (Hh : lenN h16 = 16) by (apply lenN_takeN; rewrite (ul_b3hash UL); lia).
     assert (Hx : lenN (xor_into h16 sidpid) = 16) by (rewrite lenN_xor_into; exact Hh).
     unfold ssu_encode. rewrite (aes_is_2022 _ Hk), Hm. unfold ssu_encode_client. rewrite Hk, Hik. cbn [andb udp_with_eih bind].
+    unfold lenN_ikeys. cbn [List.length]. change (16 * N.of_nat 1) with 16.
     unfold udp_make_eih. rewrite (ul_b3hash UL). cbn [N.ltb N.compare Pos.compare Pos.compare_cont].
     fold h16. fold sidpid.
     rewrite aes_block_enc_ok by assumption. cbn [bind]. rewrite app_nil_r.
